@@ -110,9 +110,9 @@ func runC16(e *Engine, tier Tier) *PropRun {
 		}
 		// bases: pointer-to-AST-struct parameters, and type-switch cases on an interface parameter
 		type base struct {
-			v ssa.Value
-			t types.Type
-			name string
+			v     ssa.Value
+			t     types.Type
+			name  string
 			guard string // condition under which this base is the node being scanned
 		}
 		var bases []base
@@ -283,10 +283,12 @@ func runC16(e *Engine, tier Tier) *PropRun {
 	rs := e.verifyAll(fns, opts, post)
 	return &PropRun{
 		Results: rs, FUC: fucList(rs),
-		Claim: func(o *Obligation) bool { return o.Kind == "schema" || o.Kind == "struct" || o.Kind == "post" || o.Kind == "inv-init" || o.Kind == "inv-pres" },
+		Claim: func(o *Obligation) bool {
+			return o.Kind == "schema" || o.Kind == "struct" || o.Kind == "post" || o.Kind == "inv-init" || o.Kind == "inv-pres"
+		},
 		Explanation: "(1) Context closure - schema scan_cover(T.f), enumerated from go/types: for every scanner function that receives an AST node of type T (as a parameter or through a type-switch case) and every node-holding field f of T, on every path that returns, f non-empty implies a recursive scan call was made on f (or, for slices, that the loop ranging over the whole field and scanning each element was entered); schema scan_case(T): the type switches of scanExpression / scanStatement have a case for every expression / statement type that holds nodes. (2) Threshold: every append to Findings is preceded, on the same path, by a call shouldInclude(that finding's severity) that returned true. (3) Counts: updateCounts proves TotalCount == len(Findings) and each per-severity count equals the number of findings of that severity (recursive counting spec, loop invariant).",
-		NotCovered: []string{"the regular-expression side of ScanSQL (regexp semantics are outside the engine)", "isTautology against the full documented payload list", "layout invariance (inherited from scanning the tree, which carries no layout)", "that Scan does not modify the tree (frame) and does not depend on previous scans"},
+		NotCovered:  []string{"the regular-expression side of ScanSQL (regexp semantics are outside the engine)", "isTautology against the full documented payload list", "layout invariance (inherited from scanning the tree, which carries no layout)", "that Scan does not modify the tree (frame) and does not depend on previous scans"},
 		Assumptions: []string{"range-over-whole-slice template as in C14"},
-		Extra: map[string]any{"cover_obligations": nCover},
+		Extra:       map[string]any{"cover_obligations": nCover},
 	}
 }
